@@ -120,7 +120,8 @@ func (ro *Roles) defsReads(r *Report, rule string) {
 			for _, a := range call.Call.Args {
 				ap := w.AP(a)
 				args = append(args, ap)
-				if !strings.HasPrefix(ap, "arg0.") {
+				// fields of the job, or the job itself
+				if !strings.HasPrefix(ap, "arg0.") && ap != "arg0" {
 					okA = false
 				}
 			}
